@@ -9,7 +9,8 @@
 // Caller obligations enforced here (never handed to the library):
 //  * max_items >= 1 (AWS_ASSERT(max_items) in the constructors);
 //  * aws_lru_cache_use_lru_element / get_mru_element only on an LRU cache (cache->impl is NULL for the others);
-//  * a value object is put once; a key pointer the cache has destroyed is never used again.
+//  * a value object is put once, except that without a value destructor the value currently cached under a key may be
+//    put again under that key; a key pointer the cache has destroyed is never used again.
 // The harness reads the public struct fields cache->table / cache->max_items to compare the whole content after
 // every step without disturbing the LRU order (aws_cache_find on an LRU cache counts as a use).
 #include "pbt.hpp"
@@ -207,7 +208,12 @@ static void run(const Case &c, Ctx &ctx) {
             }
             // every fifth put stores a NULL value (negative-cache entry / cache used as a bounded set): present, value NULL
             Val *v = nullptr;
-            if (op.arg(3) % 5 != 4) {
+            if (at >= 0 && !vd && model[at].val && op.arg(3) % 5 == 3) {
+                // the value object already cached under this key is put again (possibly under an equal but distinct
+                // key object): still a put - the entry is displaced and re-inserted like any other
+                v = model[at].val;
+                ctx.tag("reput_same_value_pointer");
+            } else if (op.arg(3) % 5 != 4) {
                 vals.emplace_back(new Val());
                 v = vals.back().get();
                 v->serial = ++serial;
